@@ -8,7 +8,7 @@ import subprocess
 from concurrent.futures import ThreadPoolExecutor
 
 from . import compdb
-from .prog import (AnalysisBroken, key, strip, strip_parens, walk, const_value, enum_name, edpe_blocks, block_nodes)
+from .prog import (AnalysisBroken, key, strip, strip_parens, walk, const_value, enum_name, edpe_blocks, block_nodes, reaching_defs)
 from .rules_cg import library_roots
 
 STACK_BUDGET_O2 = 2 << 20          # 2 MiB (a quarter of the default 8 MiB main-thread stack) at the real build's -O2
@@ -275,8 +275,17 @@ def _leaf_selfcall(P, f, tt):
     calls = [c for c in f.calls(f.name)]
     if not calls:
         return None
+    def arg_key(c, a):
+        # `tmp = t->child; ... f(.., tmp, ..)` / `f(.., tmp->mate, ..)`: the one definition of tmp that reaches the call
+        k = key(a)
+        m = re.match(r"^\(?([A-Za-z_]\w*)(->mate)?\)?$", k)
+        if m and not any(p[0] == m.group(1) for p in f.params):
+            ds = reaching_defs(f, m.group(1), c)
+            if ds is not None and len(ds) == 1:
+                return key(ds[0]) + (m.group(2) or "")
+        return k
     for c in calls:
-        if not any(key(a).endswith("->child") or key(a).endswith("->child->mate") for a in c["c"][1:]):
+        if not any(arg_key(c, a).endswith("->child") or arg_key(c, a).endswith("->child->mate") for a in c["c"][1:]):
             return None
     dkey, _ = _descent_types(P, f, {f.name}, {})
     if dkey is None:
